@@ -48,7 +48,10 @@ func (r *asyncAdapterReadReactor) init(b []byte, readAll bool, cb AsyncCallback)
 }
 
 func (r *asyncAdapterReadReactor) onRead(err error) {
-	r.adapter.ioc.Deregister(&r.adapter.slot)
+	if r.adapter.slot.Events == 0 {
+		// keep the object reachable while its other direction is still in flight
+		r.adapter.ioc.Deregister(&r.adapter.slot)
+	}
 	if err != nil {
 		r.cb(err, r.readSoFar)
 	} else {
@@ -74,7 +77,10 @@ func (r *asyncAdapterWriteReactor) init(b []byte, writeAll bool, cb AsyncCallbac
 }
 
 func (r *asyncAdapterWriteReactor) onWrite(err error) {
-	r.adapter.ioc.Deregister(&r.adapter.slot)
+	if r.adapter.slot.Events == 0 {
+		// keep the object reachable while its other direction is still in flight
+		r.adapter.ioc.Deregister(&r.adapter.slot)
+	}
 	if err != nil {
 		r.cb(err, r.wroteSoFar)
 	} else {
